@@ -183,6 +183,17 @@ def _random_and_validate(ctx, fallback):
                           % clause, dict(record=recs[rid - 1], clause=clause))
     ctx.sample(dict((a, recs[0][a]) for a in ('bounds', 'nkept', 'nreq', 'req', 'chunksKept', 'result')))
     ctx.sample(recs[-1])
+    # U: the selections the repository's own tests make (times and bounds mapped to their ranks: only order
+    # comparisons between them matter)
+    up = ctx.upstream(('phylib/io/tests/test_array.py',), 'Selector')
+    if up:
+        for rid, clause in ctx.validate('Trace_Selector', 'Trace_Selector.cfg', up, timeout=3000,
+                                        note='calls recorded from the repository\'s own tests'):
+            if clause == 'chunksKept':
+                ctx.note('kept', 'chunks_kept of a selector of the repository\'s tests differs from the transcription')
+                continue
+            ctx.violation('upstream', 'a selection made by %s is rejected by the specification: clause %s'
+                          % (up[rid - 1].get('test'), clause), dict(record=up[rid - 1], clause=clause))
 
 
 def replay(ctx, doc):
